@@ -97,8 +97,9 @@ def _main(a, prop, seed, t0):
     except Exception: base_names = set()
     retry = [k for k, ((name, ob, _), r) in enumerate(zip(obls, res)) if ob.kind != 'canary' and r['result'] not in ('unsat', 'sat') and name in base_names and name not in known]
     n_retried = 0
-    if retry and len(retry) <= 24:
-        res2 = solve.discharge([jobs[k] for k in retry], timeout=timeout * 3, jobs=6)
+    if retry and len(retry) <= 12:
+        rb = [max(30, min(timeout * 2, int(6 * base_times.get(obls[k][0], 10)) + 1)) for k in retry]
+        res2 = solve.discharge([jobs[k] for k in retry], timeout=timeout, budgets=rb, jobs=6, mode='retry')
         for k, r2 in zip(retry, res2):
             if r2['result'] == 'unsat':
                 r2['log'] = res[k]['log'] + [('retry',)] + r2['log']; res[k] = r2; n_retried += 1
